@@ -23,6 +23,11 @@ Added after the second and third seeding rounds:
                      detach (D12); String copy assignment is self-safe (D13)
   Rust side: relocated-elements-are-marked-moved (Vector::from_iter growth path); raw-pointer-read-before-vectors-are-consumed
                      (get_candidates bridge, D14); *result is overwritten with the solution; Problem fields forwarded in caller order
+Added after the fourth round:
+  foreign-slices     a pointer that comes from C++ (raw-pointer parameter of an extern "C" function, pointer field of Slice) reaches
+                     slice::from_raw_parts only behind a length / null test: (nullptr, 0) is a legal empty range in C++ (D16)
+  callback-table     no `static` / `thread_local` local of a header function is initialised from its arguments
+  alloc-symmetry     relocated-elements-are-marked-moved also covers a growth path without the IntoIter guard
 """
 from common import *
 import q, cxx
@@ -78,6 +83,7 @@ def run(ctx):
     ctx.guard("callback-table", callback_table_rust, ctx, crate, crs)
     ctx.guard("alloc-symmetry", alloc_symmetry_rust, ctx, crate, crs)
     ctx.guard("provider-mapping", provider_mapping, ctx, crate, crs)
+    ctx.guard("foreign-slices", foreign_slices, ctx, crate, crs)
 
 
 def gen_error():
@@ -786,6 +792,60 @@ def relocation_guard(ctx, crate, crs):
         ctx.ob(R, b.key, "relocated-elements-are-marked-moved", ok, b.loc(),
                "elements moved out of the old buffer are accounted for by whatever frees it (moves: %d, guard: %s, writes to the guard's begin: %d, element-dropping releases: %s)" % (len(moves), bool(guards), marks, ",".join(drops) or "none"))
     ctx.floor(R, "growth path of Vector::from_iter", n, 1)
+
+
+def foreign_slices(ctx, crate, crs):
+    """slice::from_raw_parts requires a non-null, aligned pointer even for length 0.  C++ hands out (nullptr, 0) freely
+    (`std::string_view{}`, an empty `std::vector`'s data()), so a raw-parts call whose pointer is a raw-pointer parameter of an
+    extern "C" function - or a pointer field of a #[repr(C)] struct filled in by C++ - must not be reached with length 0 / null:
+    Slice::as_slice shows the idiom (`if self.len == 0 { return &[] }`)."""
+    R = "foreign-slices"
+    n = 0
+    for b in crate.bodies:
+        if b.crate.is_test or "::tests::" in b.key:
+            continue
+        for i, t in b.calls():
+            f = t.get("f")
+            if f is None or f["name"] not in ("from_raw_parts", "from_raw_parts_mut") or "slice" not in f["path"]:
+                continue
+            n += 1
+            sig = b.d.get("sig") or {}
+            ins = sig.get("inputs") or []
+            d, _ = q.origin_thru(b, t["args"][0], transparent=q.TRANSPARENT | {"std::ptr::NonNull::as_ptr"})
+            foreign = None
+            if d.get("k") == "arg" and 1 <= d.get("l", 0) <= len(ins):
+                ty = ins[d["l"] - 1]
+                pr = [e for e in d.get("proj", []) if isinstance(e, dict) and e.get("n")]
+                if not pr and ty.lstrip().startswith(("*const", "*mut")) and sig.get("abi") not in (None, "Rust"):
+                    foreign = "parameter %d (%s) of an extern \"%s\" function" % (d["l"], ty, sig.get("abi"))
+                elif pr and any(str(e.get("ty", "")).startswith(("*const", "*mut", "std::ptr::NonNull")) for e in pr[-1:]) \
+                        and "slice::Slice" in str(pr[-1].get("of", "")):
+                    foreign = "field %s of the #[repr(C)] %s" % (pr[-1]["n"], pr[-1]["of"])
+            if foreign is None:
+                ctx.ob(R, b.key, "raw-parts-of-own-allocation", True, where_call(b, i),
+                       "the pointer comes from this side's own allocation (never null)")
+                continue
+            len_lv = q.leaves(b, t["args"][1], adt=True)
+            ptr_lv = q.leaves(b, t["args"][0], adt=True)
+            ok = False
+            for c in q.conds(b, crs):
+                if not b.dominates(c.bb, i):
+                    continue
+                zero_edge = None
+                if c.kind == "cmp" and c.op in ("Eq", "Ne"):
+                    for x, y in ((c.a, c.b), (c.b, c.a)):
+                        if (b.origin(y).get("c") or {}).get("v") in (0, "0") and (q.leaves(b, x, adt=True) & len_lv):
+                            zero_edge = c.target(c.op == "Eq")
+                elif c.kind == "bool" and isinstance(c.src, dict) and c.src.get("k") == "call" and \
+                        c.src["t"]["f"]["name"] in ("is_null", "is_empty") and \
+                        (q.leaves(b, c.src["t"]["args"][0], adt=True) & (ptr_lv | len_lv)):
+                    zero_edge = c.target(True)
+                if zero_edge is not None and i not in b.reachable([zero_edge]):
+                    ok = True
+            ctx.ob(R, b.key, "foreign-pointer-not-used-for-an-empty-slice", ok, where_call(b, i),
+                   "%s reaches slice::from_raw_parts %s" % (foreign, "only behind a length / null test" if ok else
+                                                            "unconditionally: (nullptr, 0) - e.g. a default-constructed std::string_view - is undefined behaviour there (debug builds abort)"))
+    ctx.floor(R, "slice::from_raw_parts sites in the binding", n, 3)
 
 
 def alloc_symmetry_rust(ctx, crate, crs):
